@@ -3,6 +3,7 @@ package otto
 import (
 	"fmt"
 	"math"
+	"math/big"
 	"regexp"
 	"strconv"
 	"unicode/utf16"
@@ -41,9 +42,15 @@ func numberToStringRadix(value Value, radix int) string {
 	case float == 0:
 		return "0"
 	}
+	if math.Abs(float) >= 1<<63 {
+		// Too large for an int64 (the conversion below would be undefined): every
+		// such double is an integer, print its exact digits.
+		integer, _ := new(big.Float).SetFloat64(float).Int(nil)
+		return integer.Text(radix)
+	}
 	// FIXME This is very broken
 	// Need to do proper radix conversion for floats, ...
-	// This truncates large floats (so bad).
+	// This truncates the fraction.
 	return strconv.FormatInt(int64(float), radix)
 }
 
